@@ -955,3 +955,122 @@ def r48_year_parts(ctx):
 
 
 RULES.update({"R47": r47_one_based_guards, "R48": r48_year_parts})
+
+
+# ------------------------------------------------------------------- R49
+def r49_week_year_span(ctx):
+    """A week-date year starts up to three days before 1 January and ends up
+    to three days after 31 December: its days lie in three calendar years.
+    The week->calendar conversion must therefore be able to return a date in
+    the start year of the week-year, in the week-year's own calendar year and
+    in the following one; the calendar->week conversion must be able to
+    return the previous, the same and the next week-year."""
+    rep = ctx.rep
+    rule = "R49.week-year-span"
+    P = ("C03",)
+    from ..flow import alternatives, single_def
+    rep.need_anchor(rule, "week conversions")
+
+    def offset(e, param, fnode, depth=0):
+        """-1/0/+1 for param-1 / param / param+1, "start" for a year taken
+        from the week-year start date, None if not of these forms."""
+        if isinstance(e, ast.Name):
+            if e.id == param:
+                return 0
+            if depth < 3:
+                for n in walk_no_nested(fnode):
+                    if isinstance(n, ast.Assign) and isinstance(
+                            n.targets[0], ast.Tuple) and n.targets[0].elts \
+                            and isinstance(n.targets[0].elts[0], ast.Name) \
+                            and n.targets[0].elts[0].id == e.id and \
+                            "week_date_start" in U(n.value):
+                        return "start"
+                v = single_def(fnode, e.id)
+                if v is not None:
+                    return offset(v, param, fnode, depth + 1)
+            return None
+        if isinstance(e, ast.BinOp) and isinstance(e.op, (ast.Add, ast.Sub)) \
+                and isinstance(e.right, ast.Constant) and isinstance(
+                    e.right.value, int):
+            base = offset(e.left, param, fnode, depth + 1)
+            k = e.right.value if isinstance(e.op, ast.Add) else -e.right.value
+            if base == "start":
+                return "start%+d" % k
+            if isinstance(base, int):
+                return base + k
+        return None
+
+    f = ctx.try_func("data.get_calendar_date_from_week_date")
+    if f is not None and f.params:
+        rep.anchor(rule, "week conversions")
+        yp = f.params[0]
+        offs = set()
+        unknown = []
+        for n in walk_no_nested(f.node):
+            if isinstance(n, ast.Return) and isinstance(
+                    n.value, ast.Tuple) and len(n.value.elts) == 3:
+                o = offset(n.value.elts[0], yp, f.node)
+                if o is None:
+                    unknown.append(U(n.value.elts[0]))
+                else:
+                    offs.add(o)
+        if unknown or not offs:
+            rep.note(rule, "get_calendar_date_from_week_date returns years "
+                     "%s in a form this rule does not read: span not decided"
+                     % unknown, P)
+            rep.ok(rule, ctx.fkey(f, None, "span"), f.loc(),
+                   "year expressions not of the year/start form: not decided",
+                   P, nontrivial=False)
+        else:
+            need = {"start", 0, 1}
+            rep.check(need <= offs, rule, ctx.fkey(f, None, "span"), f.loc(),
+                      "a week date can be resolved into the calendar year "
+                      "its week-year starts in, the week-year's own "
+                      "calendar year and the following one",
+                      "get_calendar_date_from_week_date can only return "
+                      "dates in the years %s relative to the week-year: a "
+                      "week-year runs from its start (late December of the "
+                      "year before, at the earliest) into early January of "
+                      "the year after, so dates in %s are unreachable (valid "
+                      "week dates such as W53-5 raise ValueError or resolve "
+                      "to the wrong year)" % (
+                          sorted(map(str, offs)),
+                          sorted(map(str, need - offs))), P)
+    g = ctx.try_func("data.get_week_date_from_calendar_date")
+    if g is not None and g.params:
+        rep.anchor(rule, "week conversions")
+        yp = g.params[0]
+        offs = set()
+        unknown = []
+        for n in walk_no_nested(g.node):
+            if isinstance(n, ast.Return) and isinstance(
+                    n.value, ast.Tuple) and len(n.value.elts) == 3:
+                e = n.value.elts[0]
+                vals = [e]
+                if isinstance(e, ast.Name):
+                    alts = alternatives(g.node, e.id)
+                    if alts:
+                        vals = [v for v, _ in alts]
+                for v in vals:
+                    o = offset(v, yp, g.node)
+                    if isinstance(o, int):
+                        offs.add(o)
+                    else:
+                        unknown.append(U(v))
+        if unknown or not offs:
+            rep.ok(rule, ctx.fkey(g, None, "span"), g.loc(),
+                   "week-year expressions %s not of the year+-1 form: not "
+                   "decided" % unknown, P, nontrivial=False)
+        else:
+            rep.check({-1, 0, 1} <= offs, rule, ctx.fkey(g, None, "span"),
+                      g.loc(),
+                      "a calendar date can fall into the previous, the same "
+                      "or the next week-year",
+                      "get_week_date_from_calendar_date can only return the "
+                      "week-years %s relative to the calendar year: the first "
+                      "days of January can belong to the previous week-year "
+                      "and the last days of December to the next" %
+                      sorted(offs), P)
+
+
+RULES["R49"] = r49_week_year_span
